@@ -1,3 +1,6 @@
 -- Root of the `GscribModel` library: models (Mathlib-free), lemmas, property theorems.
 import GscribModel.Model.Proto
 import GscribModel.Props.C17
+import GscribModel.Props.C02
+import GscribModel.Props.C05
+import GscribModel.Props.C06
